@@ -37,6 +37,13 @@ Theorem C12_line_block_consumes : forall fuel defs rd allowed s r s',
 Proof. intros fuel defs rd allowed s r s' H. exact (lineblocks_consume fuel defs rd allowed s r s' H). Qed.
 Print Assumptions C12_line_block_consumes.
 
+(* block options (+skip, -macros, -spans ...) alter the processing of one delimited block only: whatever the block rendered,
+   the pending options are reset when it is done -- for every block definition, match, reader and session *)
+Theorem C12_block_options_one_block : forall fuel doc i d m rest s r s',
+  dblock_body fuel doc i d m rest s = Ok (r, s') -> p_opts s' = expand_none.
+Proof. exact dblock_body_resets_options. Qed.
+Print Assumptions C12_block_options_one_block.
+
 Example C12_ex :
   match api_render 40 ($".cls #i" ++ [10] ++ $"one" ++ [10; 10] ++ $"two") (mkOpts PyNone PyNone PyNone false) S0 with
   | Ok (html, _) => str_eqb html ($"<p class=""cls"" id=""i"">one</p>" ++ [10] ++ $"<p>two</p>")
